@@ -2,6 +2,7 @@
    Nothing but statements, closed by [exact], each followed by Print Assumptions. *)
 From Coq Require Import ZArith QArith List Bool.
 From RV Require Import Base.Wire Base.Text Lang.PyAst Lang.PySem Gen.SafeCasts Lang.ConstEval Proofs.ConstEvalP Proofs.ConstEvalCostP Proofs.ConstEvalBoundP.
+From RV Require Import Lang.Regex Gen.Regexes Proofs.RegexP Proofs.RegexTableP Gen.SetSites Lang.FoldSession Proofs.FoldSessionP.
 Import ListNotations.
 Open Scope Z_scope.
 
@@ -123,3 +124,127 @@ Example C11_operations_linear_nonvacuous :
   esize (EBin Add (EBin Add (EBin Add (EInt 1) (EInt 2)) (EInt 3)) (EInt 4)) = 7%nat.
 Proof. exact ops_linear_example. Qed.
 Print Assumptions C11_operations_linear_nonvacuous.
+
+(* ---------------------------------------------------------------- 'terminates promptly': the regular expressions
+   (Lang/Regex.v: [ends r w] = the list of successes of the backtracking search, one entry per way of matching r against a
+   prefix of w; [paths] = its length = what the engine walks through when the rest of the pattern fails everywhere).
+   Gen/Regexes.v is regenerated on every run: every re.compile / re.match / re.fullmatch / re.sub ... pattern of
+   parser.py, emitter.py, ast.py, __init__.py and toolchain/pio.py, parsed by CPython's own re._parser. *)
+
+(* a FLAT expression - every unbounded repeat is over one character set, no group under * or + - has polynomially many
+   backtracking paths on EVERY text: one factor (length + 1) per repeat *)
+Theorem C11_flat_paths_bounded : forall r w, flat r = true -> (paths r w <= width r (length w))%nat.
+Proof. exact flat_paths_bounded. Qed.
+Print Assumptions C11_flat_paths_bounded.
+
+Theorem C11_flat_paths_polynomial : forall r w, flat r = true -> (paths r w <= (length w + 2) ^ rsize r)%nat.
+Proof. exact flat_paths_polynomial. Qed.
+Print Assumptions C11_flat_paths_polynomial.
+
+(* every regular expression of the current source is flat (star height <= 1) ... *)
+Theorem C11_regex_table_flat : forall e, In e regex_table -> flat (re_rx e) = true.
+Proof. exact regex_table_flat. Qed.
+Print Assumptions C11_regex_table_flat.
+
+Theorem C11_regex_table_star_height : forall e, In e regex_table -> (star_height (re_rx e) <= 1)%nat.
+Proof. exact regex_table_star_height. Qed.
+Print Assumptions C11_regex_table_star_height.
+
+(* ... hence none of them can backtrack more than polynomially, whatever the line *)
+Theorem C11_regex_table_polynomial : forall e w, In e regex_table ->
+  (paths (re_rx e) w <= (length w + 2) ^ rsize (re_rx e))%nat.
+Proof. exact regex_table_polynomial. Qed.
+Print Assumptions C11_regex_table_polynomial.
+
+(* the inventory is the real one: more than 60 entries, the two target() patterns among them, none with run-time parts *)
+Example C11_regex_table_nonvacuous :
+  (60 <= length regex_table)%nat /\ regex_dynamic = [] /\
+  existsb (name_is [82;69;95;84;65;82;71;69;84;95;67;65;76;76]) regex_table = true /\
+  existsb (name_is [82;69;95;84;65;82;71;69;84;95;73;78;76;73;78;69]) regex_table = true.
+Proof. exact table_sane. Qed.
+Print Assumptions C11_regex_table_nonvacuous.
+
+(* the obligation is what separates the two: the nested quantifier (?:[S]*[N]+)* - a repeated group whose body ends in an
+   unbounded run - has at least 2^n paths on n characters of N, for every pair of sets and every n; so has the port fragment
+   (?:[S]*[N]+)+[S]* of a "path-like segments" spelling of the target() pattern *)
+Theorem C11_nested_quantifier_exponential : forall S N x, cmem N x = true -> cmem S x = false ->
+  forall n, (2 ^ n <= paths (segments S N) (repeat x n))%nat.
+Proof. exact segments_exponential. Qed.
+Print Assumptions C11_nested_quantifier_exponential.
+
+Theorem C11_port_fragment_exponential : forall S N x, cmem N x = true -> cmem S x = false ->
+  forall n, (2 ^ n <= paths (port_fragment S N) (repeat x (Datatypes.S n)))%nat.
+Proof. exact port_fragment_exponential. Qed.
+Print Assumptions C11_port_fragment_exponential.
+
+(* 12 name characters: 4095 paths through the nested spelling, 12 through the flat character class of the source *)
+Example C11_port_fragment_witness :
+  paths (port_fragment cs_sep cs_name) (repeat 97 12) = 4095%nat /\
+  paths (rplus (RSet cs_port)) (repeat 97 12) = 12%nat /\
+  flat (rplus (RSet cs_port)) = true /\
+  paths (rplus (rplus (RSet cs_name))) (repeat 97 10) = 1023%nat.
+Proof. exact port_examples. Qed.
+Print Assumptions C11_port_fragment_witness.
+
+(* ---------------------------------------------------------------- 'never mutates its input-independent state':
+   folded list objects across the parse() calls of one process (Lang/FoldSession.v) *)
+
+(* an evaluator that builds a new object per evaluation: a script's output is its own, whatever was transpiled before and
+   after it and whatever the module-level objects hold; and a parse() leaves those objects as it found them *)
+Theorem C11_fold_session_stateless : forall before ms p after,
+  nth_error (fsession false ms (before ++ p :: after)) (length before) = Some (alone p).
+Proof. exact session_stateless. Qed.
+Print Assumptions C11_fold_session_stateless.
+
+Theorem C11_parse_leaves_module_store : forall ms p, parse1 false ms p = (alone p, ms).
+Proof. exact parse_pure. Qed.
+Print Assumptions C11_parse_leaves_module_store.
+
+(* the guard is tight: a module-level memo of folded values keyed by source text hands out one list object twice *)
+Theorem C11_fold_memo_refuted : exists A B, nth_error (fsession true ms_empty [A; B]) 1 <> Some (alone B).
+Proof. exact memo_refutes. Qed.
+Print Assumptions C11_fold_memo_refuted.
+
+Example C11_fold_memo_witness :
+  alone leak_B = [OLenIs 3; OPattern [1; 0; 1]] /\
+  fsession true ms_empty [leak_B; leak_A; leak_B; leak_A] =
+    [ [OLenIs 3; OPattern [1; 0; 1]];
+      [OLenIs 5; OPattern [1; 0; 1; 0; 1]];
+      [OLenIs 5; OPattern [1; 0; 1; 0; 1]];
+      [OLenIs 7; OPattern [1; 0; 1; 0; 1; 0; 1]] ].
+Proof. exact memo_leaks. Qed.
+Print Assumptions C11_fold_memo_witness.
+
+(* the CURRENT source (Gen/SetSites.v, the inventory C10 uses): no function of parser.py / emitter.py / ast.py mutates or
+   hands out a module-level object (but the verification hook its own log) - there is nothing a memo could live in *)
+Theorem C11_no_mutated_module_state : forall m, In m module_state -> m_mutated m = true -> m_name m = hook_log.
+Proof. exact no_leaky_state. Qed.
+Print Assumptions C11_no_mutated_module_state.
+
+Theorem C11_current_source_has_no_fold_memo : memo_possible = false.
+Proof. exact no_memo_possible. Qed.
+Print Assumptions C11_current_source_has_no_fold_memo.
+
+Theorem C11_fold_session_stateless_current_source : forall before ms p after,
+  nth_error (fsession memo_possible ms (before ++ p :: after)) (length before) = Some (alone p).
+Proof. exact session_stateless_current_source. Qed.
+Print Assumptions C11_fold_session_stateless_current_source.
+
+Example C11_fold_session_nonvacuous :
+  alone leak_A = [OLenIs 5; OPattern [1; 0; 1; 0; 1]] /\
+  fsession false (mk_ms [[9; 9]] [([1; 0; 1], 0%nat)]) [leak_B; leak_A; leak_B] =
+    [[OLenIs 3; OPattern [1; 0; 1]]; [OLenIs 5; OPattern [1; 0; 1; 0; 1]]; [OLenIs 3; OPattern [1; 0; 1]]].
+Proof. exact session_nonvacuous. Qed.
+Print Assumptions C11_fold_session_nonvacuous.
+
+(* F-C11-blank-run-cubic (open finding): flat is polynomial, not linear.  The argument part  \s*(.*?)\s*  of every declaration /
+   method pattern is three adjacent runs that all accept a blank: C(n + 3, 3) backtracking paths on n blanks - the degree-3
+   growth measured on the real transpiler (`led = Led(<n blanks>)!`: 0.07 s, 0.44 s, 3.1 s, 21 s for n = 400 ... 3200) *)
+Example C11_blank_run_cubic_witness :
+  flat blank_args = true /\
+  Z.of_nat (paths blank_args (repeat 32 8)) = 165 /\
+  Z.of_nat (paths blank_args (repeat 32 16)) = 969 /\
+  Z.of_nat (paths blank_args (repeat 32 32)) = 6545 /\
+  Z.of_nat (paths blank_args (repeat 32 64)) = 47905.
+Proof. exact blank_args_cubic. Qed.
+Print Assumptions C11_blank_run_cubic_witness.
